@@ -26,6 +26,10 @@ type Cmd struct {
 	SysProcAttr  *syscall.SysProcAttr
 	Process      *Process
 	ProcessState *ProcessState
+	// like exec.Cmd: what Wait does when the context ends (nil: SIGKILL), and how long it
+	// gives the command afterwards before it kills it for good (0: for ever)
+	Cancel    func() error
+	WaitDelay time.Duration
 
 	ctx        context.Context
 	stdoutPipe *Pipe
@@ -220,7 +224,18 @@ func (c *Cmd) Wait() error {
 	if simsync.Select(simsync.SiteHarness, false, simsync.RecvCase((<-chan struct{})(p.dead)), simsync.RecvCase(ctxDone)) == 1 {
 		// os/exec kills the process when the context is done
 		ctxErr = c.ctx.Err()
-		_ = Kill(p.Pid, 9)
+		if c.Cancel != nil {
+			_ = c.Cancel()
+			if c.WaitDelay > 0 {
+				tm := time.NewTimer(c.WaitDelay)
+				if simsync.Select(simsync.SiteHarness, false, simsync.RecvCase((<-chan struct{})(p.dead)), simsync.RecvCase(tm.C)) == 1 {
+					_ = Kill(p.Pid, 9)
+				}
+				tm.Stop()
+			}
+		} else {
+			_ = Kill(p.Pid, 9)
+		}
 		simsync.Recv1(simsync.SiteHarness, (<-chan struct{})(p.dead))
 	}
 	W.enter()
